@@ -417,7 +417,10 @@ class Play:
         if style == "allowed-item" and ev in [str(e) for e in self.safe_allowed(sm)]:
             return lambda: [e for e in sm.allowed_events if e == ev][0](*a, **kw)
         if style == "bound" and declared and "bound" in ctx.extra:
-            return lambda: getattr(ctx.extra["bound"], ev)(*a, **kw)
+            tgt = ctx.extra["bound"]
+            if "bound2" in ctx.extra and len(a) % 2:  # (several targets bound in one call: any of them will do)
+                tgt = ctx.extra["bound2"]
+            return lambda: getattr(tgt, ev)(*a, **kw)
         return lambda: sm.send(ev, *a, **kw)
 
     @staticmethod
